@@ -51,6 +51,10 @@ SUB = {
     # every per-function file must still have one line per function)
     "verif_sqpow": [["x", "a"], ["square"], ["/", "pow"]],
     "verif_longlabel": [["x", "a"], ["log10_abs"], []],
+    # directed: rational coefficients with numerator and denominator both different from 1 (pow(x**(3/2), a0) = pow(x,(3*a0/2)):
+    # the printer's split of a coefficient p/q into numerator and denominator)
+    "verif_ratcoef": [["x", "a"], ["sqrt_abs", "cube"], ["*", "pow"]],
+    "verif_ratcoef2": [["x", "a"], ["sqrt_abs", "exp"], ["*", "pow"]],
 }
 
 
@@ -62,6 +66,24 @@ FOUR_PARAM_LINES = [
     (["*", "a3", "+", "x", "*", "a2", "+", "a1", "a0"], "a3*(x + a2*(a1 + a0))"),
     (["-", "/", "a0", "a3", "*", "a1", "inv", "a2"], "a0/a3 - a1/a2"),
 ]
+
+
+# strings of the form the library files hold for trees in which exp(log_abs(.)), sqrt_abs(square(.)) or square(sqrt_abs(.)) collapse to
+# an absolute value inside a function that itself acts on absolute values: the inner Abs is part of the function (|a0| + 1/x is not
+# |a0 + 1/x| for a0 < 0), so neither reader may drop it.  Generated libraries reach these at complexity 6-7 only.
+NESTED_ABS_LINES = [
+    (["log_abs", "+", "inv", "x", "exp", "log_abs", "a0"], "log(Abs(a0) + 1/x)"),
+    (["log_abs", "+", "exp", "log_abs", "a0", "inv", "x"], "log(Abs(a0) + 1/x)"),
+    (["sqrt_abs", "+", "x", "sqrt_abs", "square", "a0"], "sqrt(Abs(a0) + x)"),
+    (["sqrt_abs", "-", "x", "square", "sqrt_abs", "a0"], "sqrt(Abs(x - Abs(a0)))"),
+    (["pow", "-", "sqrt_abs", "square", "a0", "x", "a1"], "pow(Abs(Abs(a0) - x),a1)"),
+    (["pow", "+", "exp", "log_abs", "a0", "x", "a1"], "pow(Abs(a0) + x,a1)"),
+    (["log_abs", "-", "sqrt_abs", "square", "a0", "inv", "x"], "log(Abs(Abs(a0) - 1/x))"),
+    (["sqrt_abs", "+", "a1", "sqrt_abs", "square", "a0"], "sqrt(Abs(a1 + Abs(a0)))"),
+    (["log_abs", "*", "a0", "x"], "log(Abs(a0*x))"),
+    (["sqrt_abs", "+", "a0", "x"], "sqrt(Abs(a0 + x))"),
+]
+SYNTHETIC = {"synthetic_4param": ("core_maths", FOUR_PARAM_LINES), "synthetic_nested_abs": ("keep_duplicates", NESTED_ABS_LINES)}
 
 
 def coq_str(s):
@@ -91,11 +113,11 @@ def libs(ctx):
     if ctx.quick:
         return [("core_maths", 4, 400), ("keep_duplicates", 3, 400), ("ext_maths", 3, 300), ("osc_maths", 3, 200),
                 ("base10_maths", 3, 200), ("base_e_maths", 4, 300), ("verif_cube", 4, 300), ("verif_nominus", 4, 300), ("verif_powroot", 5, 400),
-                ("verif_sqpow", 6, 700), ("verif_longlabel", 7, 50)]
+                ("verif_sqpow", 6, 700), ("verif_longlabel", 7, 50), ("verif_ratcoef", 5, 300)]
     out = [(b, n, 4000) for b in SHIPPED for n in (1, 2, 3, 4)] + [("core_maths", 5, 4000), ("core_maths", 6, 1500),
             ("keep_duplicates", 5, 2500), ("ext_maths", 5, 2500), ("base_e_maths", 5, 2000)]
-    out += [(b, n, 3000) for b in SUB for n in (3, 4, 5) if b not in ("verif_longlabel",)]
-    out += [("verif_sqpow", 6, 3000), ("verif_longlabel", 7, 50), ("verif_longlabel", 8, 50)]
+    out += [(b, n, 3000) for b in SUB for n in (3, 4, 5) if b not in ("verif_longlabel", "verif_ratcoef2")]
+    out += [("verif_ratcoef2", 6, 3000), ("verif_sqpow", 6, 3000), ("verif_longlabel", 7, 50), ("verif_longlabel", 8, 50)]
     return out
 
 
@@ -107,17 +129,18 @@ def correspondence(ctx):
     shutil.copytree(ctx.scratch, dst, ignore=shutil.ignore_patterns("function_library", "__pycache__"))
     cases = []
     dist = {}
-    for runname, n, maxlines in libs(ctx) + [("synthetic_4param", 7, 100)]:
-        if runname == "synthetic_4param":
+    for runname, n, maxlines in libs(ctx) + [(k, 7, 100) for k in SYNTHETIC]:
+        if runname in SYNTHETIC:
             # hand-written lines with four distinct parameters (generated libraries reach them only at complexity 7): both readers
             # must bind every parameter name to its own symbol
-            basis = SHIPPED["core_maths"]
+            basis = SHIPPED[SYNTHETIC[runname][0]]
+            synth = SYNTHETIC[runname][1]
             libdir = os.path.join(dst, "esr", "function_library", runname, "compl_%d" % n)
             os.makedirs(libdir, exist_ok=True)
             with open(os.path.join(libdir, "trees_%d.txt" % n), "w") as f:
-                f.write("".join(repr(t) + "\n" for t, _ in FOUR_PARAM_LINES))
+                f.write("".join(repr(t) + "\n" for t, _ in synth))
             with open(os.path.join(libdir, "all_equations_%d.txt" % n), "w") as f:
-                f.write("".join(e + "\n" for _, e in FOUR_PARAM_LINES))
+                f.write("".join(e + "\n" for _, e in synth))
             rc, out, err = 0, "", ""
         else:
             basis = SHIPPED.get(runname) or SUB[runname]
